@@ -668,7 +668,7 @@ def run_suite(seed, tier):
     S = Suite(seed)
     rng = S.rng
     quick = tier == 'quick'
-    per_family = 3 if quick else 24
+    per_family = 3 if quick else 16
     try:
         sym_flags(S)
         for family in sorted(F.FAMILIES):
